@@ -182,21 +182,23 @@ type observation struct {
 	// the last transition had not run yet although the API call had returned), at race / racelate / raceself the
 	// destination of the transition in flight (tasks that are not held; their reply was on the stream already) — direct
 	// evidence of the schedule the model's stale-update variants assume
-	pending  []int
-	victims  []int
-	env      string
-	root     string
-	rootSu   string
-	roles    [][2]string
-	run      [][2]string
-	soeor    bool
-	eoeor    bool
-	stops    []int
-	kills    []int
-	trans    string
-	tErrorMs int64 // -1: ERROR not reached within the window
-	log      string
-	by       []groupObs // bystander groups (only with a sixth input field)
+	pending   []int
+	victims   []int
+	env       string
+	root      string
+	rootSu    string
+	roles     [][2]string
+	run       [][2]string
+	soeor     bool
+	eoeor     bool
+	stops     []int
+	kills     []int
+	trans     string
+	tErrorMs  int64 // -1: ERROR not reached within the window
+	log       string
+	by        []groupObs // bystander groups (only with a sixth input field)
+	again     string     // follow-up probe (again.go): the environment's state after one more failure; "" = not probed
+	againTold bool       // …and whether the victim's role had published ERROR after the main injection
 }
 
 func (o *observation) sx() string {
@@ -233,6 +235,9 @@ func (o *observation) sx() string {
 	}
 	if len(o.by) > 0 {
 		l.Add(sx.L(sx.A("by"), groupObsSx(o.by)))
+	}
+	if o.again != "" {
+		l.Add(sx.L(sx.A("again"), sx.A(o.again), sx.B(o.againTold)))
 	}
 	return l.String()
 }
@@ -833,6 +838,14 @@ func runScenario(s *scenario, verbose bool) (*observation, error) {
 	sort.Ints(o.stops)
 	sort.Ints(o.kills)
 	sort.Ints(o.victims)
+	// a critical victim of a burst world that did not take the environment to ERROR: is the environment still watched?
+	if needAgain(s, o) {
+		told := roleToldError(w, id, s, evMark) // before the follow-up, which tells the role ERROR itself
+		if o.again, err = followUp(w, id, s, vic.TaskID); err != nil {
+			return nil, err
+		}
+		o.againTold = told
+	}
 	if verbose {
 		var b strings.Builder
 		for _, r := range w.Trace()[mark:] {
